@@ -46,6 +46,14 @@ static scn_t setup(void) {
         for(int k = 0; k < DSZ; k++) IN_dig[i][k] = (unsigned char)c->digest[k];
     }
     fix_starts(&s.t, NCH);
+    /* history: the context may already have been read from / validated before - the running data digest is either absent or
+     * live with arbitrary bytes absorbed, and the stream is anywhere */
+    if(nondet_bool()) {
+        bool hi = hash_init(z, &z->check_full_hash, &z->hash_type);
+        ASSUME(hi);
+        if(nondet_bool()) { char junk[2] = {nondet_char(), nondet_char()}; bool hu = hash_update(z, &z->check_full_hash, junk, 2); ASSUME(hu); }
+    }
+    vf_pos[0] = (long)(nondet_size_t() % (FCAP + 1));
     /* reference classification straight from the file bytes */
     for(size_t i = 0; i < NCH; i++) {
         zckChunk *c = s.t.c[i];
